@@ -593,6 +593,8 @@ def run(ctx):
                 '3..25 over all operations on rectangular grids, strips and patches of the shipped geometries (<= 300 columns), with file '
                 'round trips interleaved; distinct = distinct (start geometry, operation list); every one is non-trivial (>= 1 edit)')
     t0 = time.time()
+    if ctx.model_ok:
+        M.private_driver('drv_c10', ctx.tmp)
     ties = Ties(ctx, mg, res, ctx.n(900, 100000))
     exhaustive(ctx, mg, res, t0 + ctx.n(40, 600), ties)
     random_sequences(ctx, mg, res, t0 + ctx.n(70, 1000), ties)
